@@ -311,17 +311,23 @@ def main_check(prop, modname, tier, seed):
     os.makedirs(scratch, exist_ok=True)
     total = UnitResult()
     stage_notes = []
+    units = []
     try:
-        binary = build_driver("mon")
-        units = mod.units(tier, seed)
-        print(f"[{prop}] {tier} seed={seed}: {len(units)} work units on {NPROC} processes", flush=True)
-        with ProcessPoolExecutor(max_workers=NPROC) as ex:
-            futs = [ex.submit(_run_unit, (modname, u, binary, os.path.join(scratch, f"u{i}"), seed, tier))
-                    for i, u in enumerate(units)]
-            for f in as_completed(futs):
-                total.merge(f.result())
+        proceed = True
+        if hasattr(mod, "prebuild"):
+            # static precondition of the property (may record a violation without the driver)
+            proceed = mod.prebuild(total, stage_notes)
+        if proceed:
+            binary = build_driver("mon")
+            units = mod.units(tier, seed)
+            print(f"[{prop}] {tier} seed={seed}: {len(units)} work units on {NPROC} processes", flush=True)
+            with ProcessPoolExecutor(max_workers=NPROC) as ex:
+                futs = [ex.submit(_run_unit, (modname, u, binary, os.path.join(scratch, f"u{i}"), seed, tier))
+                        for i, u in enumerate(units)]
+                for f in as_completed(futs):
+                    total.merge(f.result())
         # optional extra stages (sanitizers, offline checks over merged data)
-        if hasattr(mod, "extra_stages"):
+        if proceed and hasattr(mod, "extra_stages"):
             mod.extra_stages(tier, seed, scratch, total, stage_notes)
     except Inconclusive as e:
         print(f"INCONCLUSIVE property={prop} {e}", flush=True)
